@@ -871,3 +871,25 @@ func (ne *nitroEnv) checkChain() {
 		ne.env.Violate("C07", "nodelist-corrupted", "the application's node list holds %d nodes, %d live items were chained", n, len(ne.chained))
 	}
 }
+
+// lastCloseAlone reports whether the Close that retired a snapshot last did
+// not overlap any other final Close or GC call: then that Close alone must
+// have triggered the collection of everything that is collectable.
+func (ne *nitroEnv) lastCloseAlone() bool {
+	iv := ne.closeIvs
+	if len(iv) == 0 {
+		return false
+	}
+	last := 0
+	for i := range iv {
+		if iv[i][1] > iv[last][1] {
+			last = i
+		}
+	}
+	for i := range iv {
+		if i != last && iv[i][0] < iv[last][1] && iv[last][0] < iv[i][1] {
+			return false
+		}
+	}
+	return true
+}
